@@ -5,8 +5,8 @@ A file is the list of its lines (without the line terminator; Python's `readline
 ever `''` and blank lines are data rows — mirrored).  External code is a parameter or a stated contract:
 * `csv.reader(f, delimiter=d)` on the files considered (no quote characters) splits a line at every `d`
   (`splitOn`), a blank line gives the empty row;
-* `np.genfromtxt(lines, delimiter=d, comments=c, ndmin=2)` on the lines that do not start with a comment
-  character: every line is cut at the first `c`, blank lines are
+* `np.genfromtxt(lines, delimiter=d, comments=c, ndmin=2)` on the lines that are neither comment lines nor
+  blank: every line is cut at the first `c`, blank lines are
   dropped, the rest is split at `d`, each field converted by `num` (a failure is `nan`); rows of unequal
   length raise ValueError.
 -/
@@ -68,6 +68,8 @@ def scanStep (delims comments : List Char) (nScan : Nat) (st : ScanState) (row :
   if st.rows.length = nScan ∧ 0 < nScan then st
   else if comments.any (fun c => row.toList.head? = some c) then
     { st with headerLength := st.headerLength + 1, comment := row.toList.headD st.comment }
+  else if strip row = "" then
+    { st with headerLength := st.headerLength + 1 }      -- a blank line is not a data row
   else
     { st with rows := rstrip row :: st.rows, counts := delims.map (fun d => countChar d row) :: st.counts }
 
@@ -123,9 +125,16 @@ deriving Repr
 def cutComment (c : Char) (s : String) : String := String.ofList (s.toList.takeWhile (· ≠ c))
 
 /-- the rows `np.genfromtxt` converts: comment tails removed, blank lines dropped, split at the delimiter -/
-def genRows (d c : Char) (comments : List Char) (lines : List String) : List (List String) :=
-  let lines := lines.filter fun row => !comments.any (fun c => row.toList.head? = some c)
+def genRows (d c : Char) (lines : List String) : List (List String) :=
   (((lines.map (cutComment c)).map stripSp).filter (fun s => s ≠ "")).map fun s => (splitAt d s).map strip
+
+/-- the lines of the file that are not comment lines (`not line.startswith(tuple(comments))`) -/
+def dataLines (comments : List Char) (lines : List String) : List String :=
+  lines.filter fun row => !comments.any (fun c => row.toList.head? = some c)
+
+/-- `csv.reader(lines, delimiter=d)` on unquoted lines: split at `d`, the empty row for an empty line -/
+def csvRows (d : Char) (lines : List String) : List (List String) :=
+  (lines.map (splitAt d)).map fun r => if r = [""] then [] else r
 
 /-- `int(x)` of a float: truncation toward zero -/
 def truncRat (r : Rat) : Int :=
@@ -158,6 +167,8 @@ def fastPath (symW : Flags → Bool) (num : String → Option Rat) (rows : List 
   | r0 :: _ =>
     if rows.any (fun r => r.length ≠ r0.length) then some (.error .valueError)
     else if !rows.all (fun r => r.all fun s => (num s).isSome) then none    -- some nan: TypeError, caught
+    else if rows.any (fun r => (r.take 2).any fun s => decide (2 ^ 53 ≤ ((num s).getD 0).num.natAbs / ((num s).getD 0).den)) then
+      none      -- an identifier floats do not represent exactly: the rows are read as strings
     else if r0.length < 2 then some (.error .indexError)
     else
       let edges := rows.map fun r => (truncRat ((num (r.getD 0 "")).getD 0), truncRat ((num (r.getD 1 "")).getD 0))
@@ -186,15 +197,18 @@ def fromCsvWith (symW : Flags → Bool) (num : String → Option Rat) (lines : L
   let sc := csvScan lines a
   let d := csvDelimiter lines a
   let layout := a.layout.getD sc.layout
-  -- csv.reader gives the empty row for an empty line
-  let body := ((lines.drop sc.headerLength).map (splitAt d)).map fun r => if r = [""] then [] else r
+  let lines0 := dataLines a.comments lines
+  let body := csvRows d lines0
   match layout with
   | .edgeList =>
-    match fastPath symW num (genRows d sc.comment a.comments lines) f with
+    -- whitespace-only lines are dropped before both readers
+    let lines1 := lines0.filter fun row => strip row ≠ ""
+    let rows := csvRows d lines1
+    match fastPath symW num (genRows d sc.comment lines1) f with
     | some r => r
     | none =>
-      if body.any (fun r => r.length < 2) then .error .indexError
-      else fromEdgeListWith symW (intOfNum num) (tuplesOf num body) f
+      if rows.any (fun r => r.length < 2) then .error .indexError
+      else fromEdgeListWith symW (intOfNum num) (tuplesOf num rows) f
   | .adjacencyList =>
     fromEdgeListWith symW (intOfNum num)
       (adjacencyEdges (((List.range body.length).zip body).map fun r => (.int r.1, r.2.map .str))) f
